@@ -35,8 +35,10 @@ func verifH_C16_adopt() {
 	W := verifParam("W", 1)
 	w1min := verifParam("W1min", 0)
 	w1 := w1min + verifChoose("w1", verifParam("W1", W)+1-w1min)
-	wr := verifChoose("wr", W+1)
-	wp := verifChoose("wp", W+1)
+	wrmin := verifParam("WRmin", 0)
+	wr := wrmin + verifChoose("wr", W+1-wrmin)
+	wpmin := verifParam("WPmin", 0)
+	wp := wpmin + verifChoose("wp", verifParam("WP", W)+1-wpmin)
 	ps := verifPINVStore(w1, wr, wp)
 	store := ps.store
 	readBufSize = verifB
